@@ -41,6 +41,7 @@ class TConn:
         self.timeout = None
         self.parser = None
         self.initialized = False
+        self.proxy_protocol_info = None
 
         # set the socket to non blocking
         self.sock.setblocking(False)
@@ -276,6 +277,12 @@ class ThreadWorker(base.Worker):
             req = next(conn.parser)
             if not req:
                 return (False, conn)
+
+            # a PROXY protocol line applies to every request of the connection
+            if req.proxy_protocol_info:
+                conn.proxy_protocol_info = req.proxy_protocol_info
+            else:
+                req.proxy_protocol_info = conn.proxy_protocol_info
 
             # handle the request
             keepalive = self.handle_request(req, conn)
